@@ -2,7 +2,7 @@ from common import *
 from rpcommon import *
 ID = 'C06'
 TRANSLATORS = []
-COQ_TARGETS = ['Corr/Dispatch.vo']
+COQ_TARGETS = ['Properties_C06.vo']
 HARNESS_MODS = ['rp']
 RULE = ('cases: rp.serve serial mem16 style blocksize l:allocscript h:stream l:verdicts - a session history: receive, process, release, until the octet '
         'stream is used up; the memory backend records every call (kind, address, block size, payload octets) and answers with the scripted verdict '
@@ -13,9 +13,9 @@ RULE = ('cases: rp.serve serial mem16 style blocksize l:allocscript h:stream l:v
 TRUSTED_BASE = TB_COMMON + ['Model/Regp.v is hand-written from src/register-protocol.c and doc/regp.txt; tie = correspondence']
 ASSUMPTIONS = ['little-endian host: 16-bit words travel in host memory order', 'the reply sink accepts everything (sink failures are outside the modelled domain)']
 EXHAUSTIVE = {'quick': False, 'thorough': False}
-TECHNIQUE = 'Coq proof + correspondence'
-LEVEL_TEXT = 'wip'
-LEVEL_NOTE = 'wip'
+TECHNIQUE = 'Coq proof (processing: one access per accepted request, word-size/overflow short-cuts, reply = conforming frame decoded by the requester) + correspondence over session histories with a recording, scripted backend'
+LEVEL_TEXT = "Theorems in Properties_C06.v about Model/Regp.v: for every successfully received request exactly one backend call with the request's address, block size and (writes) exactly the received payload, or - on word-size mismatch / a read that cannot fit - no call and the EWORDSIZE / ETXOVERFLOW reply; for each of the twelve verdicts the reply, received by the requester's receiver on either transport, is the matching response type with the verdict as code, the request's sequence number and address and the prescribed payload (delivered words / buffer size / reported address as four big-endian octets in octet semantics / none); responses, meta messages and frames that failed reception cause no access; at most one access per round of any session history.  Model tied to the C by correspondence (all request kinds x 12 verdicts x transports x memory widths, histories)."
+LEVEL_NOTE = 'Trusted: Coq kernel; hand model of register-protocol.c (correspondence-tested incl. the backend call log); data words are opaque octets (LE host). No axioms.'
 NO_SHRINK = True
 
 def gen(rng, tier):
